@@ -216,7 +216,7 @@ ARGSETS = {"A": dict(step=0.25, displacement=1e-6), "B": dict(step=0.25, displac
 
 
 def k_history(params):
-    """(i) every ordered pair of compute() calls with argument sets {A, B, C} on one Manifold object: the seeds present afterwards must satisfy
+    """(i) every ordered pair, and every triple (a, b, a), of compute() calls with argument sets {A, B, C} on one Manifold object: the seeds present afterwards must satisfy
     the statement for the arguments of the *last* call; (ii) the orbit is re-corrected in place (loose, then tight tolerance) between two
     Manifold objects: the second manifold's seeds must belong to the orbit as it is now"""
     import dataclasses
@@ -230,17 +230,18 @@ def k_history(params):
     n = nt = 0
     ctx = _Ctx(mu, orbit)
     for stable in (True, False):
-        for first in sorted(ARGSETS):
-            for second in sorted(ARGSETS):
+        seqs = [(a, b) for a in sorted(ARGSETS) for b in sorted(ARGSETS)] + [(a, b, a) for a in sorted(ARGSETS) for b in sorted(ARGSETS) if a != b]
+        for seq in seqs:
+                second = seq[-1]
                 man = _L["Manifold"](orbit, stable=stable, direction="positive")
-                tag = "%s stable=%s: compute(%s) then compute(%s) on the same Manifold object" % (tag0, stable, ARGSETS[first], ARGSETS[second])
+                tag = "%s stable=%s: compute() with the argument sets %s in turn on the same Manifold object" % (tag0, stable, [ARGSETS[k] for k in seq])
 
                 def V(key, what, obs=None, exp=None, _s=stable):
                     k2 = "history/same_object/%s/%s" % (key, "stable" if _s else "unstable")
                     viol.setdefault(k2, violation(k2, what, obs, exp))
                 try:
-                    man.compute(integration_fraction=0.05, dt=1e-2, show_progress=False, **ARGSETS[first])
-                    man.compute(integration_fraction=0.05, dt=1e-2, show_progress=False, **ARGSETS[second])
+                    for k in seq:
+                        man.compute(integration_fraction=0.05, dt=1e-2, show_progress=False, **ARGSETS[k])
                     trajs = man.trajectories
                 except Exception as exc:
                     V("raises", "compute raised %s: %s [%s]" % (type(exc).__name__, str(exc)[:120], tag))
